@@ -54,6 +54,8 @@ SPEC = {
     'mixed entries) for ranks 2-3 (sampled for rank 4), _invert_perm on all permutations of length<=5 plus all sign '
     'patterns for length<=4, keepdims, four '
     'bodies (order-sensitive carry; output of equal / lower / higher rank; layout-sensitive output). '
+    'onehot: 23 on/off pairs (0/-inf, inf/-inf, 0.9/0.1, +-finfo.max, -0.0/0.0, ints, bool, float16/bfloat16/float32/'
+    'float64/int8/int32 scalars) x label dtypes, every element compared bit-exactly with on_value/off_value. '
     'A case is non-trivial when it has at least one item/row/scanned element; distinct = distinct canonical JSON.'
   ),
   'trusted_base': [
@@ -1446,26 +1448,76 @@ def check_reshape_helpers(ctx, drv, rng, n_random):
   ctx.count('malformed', 'stack_forest structure mismatch')
   if r[0] == 'ok':
     ctx.violation('stack_forest-accepts-mismatch', 'stack_forest accepted trees of different structure', {'kind': 'stack_forest-mismatch'})
-  # onehot
+  # onehot: every output element must be *bit-identical* to on_value or off_value (cast to float32), chosen by
+  # index equality - no arithmetic on the two values (0/-inf additive masks, label smoothing, extreme magnitudes)
+  fmax = float(np.finfo(np.float32).max)
+  pairs = [
+    (1.0, 0.0), (0.0, float('-inf')), (float('inf'), float('-inf')), (0.9, 0.1), (fmax, -fmax), (0.5, -2.0),
+    (-0.0, 0.0), (1e-30, -1e30), (float('-inf'), 0.0), (0.1, 0.7), (1.0 / 3.0, 2.0 / 3.0), (3.0e38, 1.0e-38),
+    (1, 0), (5, -3), (2**24 + 1, -(2**24) - 1), (True, False),
+    (np.float32(0.9), np.float32(0.1)), (np.float16(0.1), np.float16(-0.3)), (np.float64(0.9), np.float64(float('-inf'))),
+    (np.int32(7), np.int32(-7)), (np.int8(1), np.int8(0)), (jnp.float32(0.9), jnp.float32(-1e38)), (jnp.bfloat16(0.3), jnp.bfloat16(2.5)),
+  ]
+  label_dtypes = [np.int32, np.int8, np.uint8, np.int16, np.int64]
+
+  def f32(v):
+    return np.asarray(v).astype(np.float32) if not isinstance(v, jax.Array) else np.asarray(v.astype(jnp.float32))
+
   reqs, recs = [], []
-  for _ in range(n_random):
-    n = rng.randrange(1, 7)
-    shape = rng.choice([(), (3,), (2, 2), (1, 2, 3)])
-    labels = np.array([rng.randrange(-2, n + 2) for _ in range(int(np.prod(shape, dtype=int)))], np.int32).reshape(shape)
-    custom = rng.random() < 0.3
-    on, off = (0.5, -2.0) if custom else (1.0, 0.0)
-    r = call(cu.onehot, labels, n, on, off) if custom else call(cu.onehot, labels, n)
+  sweep = [(i, True) for i in range(len(pairs))] + [(rng.randrange(len(pairs)), False) for _ in range(max(60, n_random // 2))]
+  for pi_, fixed in sweep:
+    n = rng.randrange(1, 7) if not fixed else 4
+    shape = rng.choice([(), (3,), (2, 2), (1, 2, 3)]) if not fixed else (5,)
+    ldt = rng.choice(label_dtypes)
+    lo = 0 if ldt is np.uint8 else -2
+    vals = [rng.randrange(lo, n + 2) for _ in range(int(np.prod(shape, dtype=int)))] if not fixed else [0, 3, lo, 4, 1]
+    labels = np.array(vals, ldt).reshape(shape)
+    default = (not fixed) and rng.random() < 0.25
+    on, off = (1.0, 0.0) if default else pairs[pi_]
+    how = rng.randrange(3)
+    if default:
+      r = call(cu.onehot, labels, n)
+    elif how == 0:
+      r = call(cu.onehot, labels, n, on, off)
+    elif how == 1:
+      r = call(cu.onehot, labels, n, on_value=on, off_value=off)
+    else:
+      r = call(cu.onehot, jnp.asarray(labels), n, on, off)
     recs.append((n, shape, labels, on, off, r))
-    reqs.append(('onehot', [labels.reshape(-1).tolist(), n]))
+    reqs.append(('onehot', [labels.reshape(-1).astype(np.int64).tolist(), n]))
   outs = drv.run(reqs)
   for (n, shape, labels, on, off, r), m in zip(recs, outs):
-    case = {'kind': 'onehot', 'n': n, 'labels': labels.tolist(), 'on': on, 'off': off}
+    on32, off32 = f32(on), f32(off)
+    case = {'kind': 'onehot', 'n': n, 'labels': labels.tolist(), 'label_dtype': labels.dtype.name, 'on': repr(on), 'off': repr(off), 'on_type': type(on).__name__}
     ctx.case(case)
     ctx.count('onehot_rank', len(shape))
-    want = np.where(labels[..., None] == np.arange(n).reshape((1,) * labels.ndim + (n,)), np.float32(on), np.float32(off)).astype(np.float32)
+    ctx.count('onehot_on_off', f'{float(on32)!r}/{float(off32)!r}')
+    eq = labels.astype(np.int64)[..., None] == np.arange(n).reshape((1,) * labels.ndim + (n,))
+    want = np.where(eq, on32, off32).astype(np.float32)
     ind = [[1 if int(l) == c else 0 for c in range(n)] for l in labels.reshape(-1)]
-    if r[0] != 'ok' or np.asarray(r[1]).shape != shape + (n,) or np.asarray(r[1]).dtype != np.float32 or not np.array_equal(np.asarray(r[1]), want):
-      ctx.violation('onehot-not-indicator', f'onehot differs from the indicator on {case}: {r[0]}', case)
+    if r[0] != 'ok':
+      ctx.violation('onehot-raises', f'onehot raised {r[1]} on {case}', case)
+      continue
+    got = np.asarray(r[1])
+    if got.shape != shape + (n,) or got.dtype != np.float32:
+      ctx.violation('onehot-not-indicator', f'onehot returns shape {got.shape} dtype {got.dtype} on {case}', case)
+      continue
+    gb, wb = got.view(np.uint32), want.view(np.uint32)
+    if not np.array_equal(gb, wb):
+      k = int(np.flatnonzero(gb.reshape(-1) != wb.reshape(-1))[0])
+      default_vals = float(on32) == 1.0 and float(off32) == 0.0
+      ctx.violation(
+        'onehot-not-indicator' + ('' if default_vals else '-custom-on-off'),
+        f'onehot element #{k} is {got.reshape(-1)[k]!r} (bits {int(gb.reshape(-1)[k]):#010x}), must be exactly '
+        f'{"on" if eq.reshape(-1)[k] else "off"}_value = {want.reshape(-1)[k]!r} (bits {int(wb.reshape(-1)[k]):#010x}) on {case}',
+        case,
+      )
+      continue
+    # model tie: which of the two values sits where
+    sym = np.where(gb == on32.view(np.uint32), 1, np.where(gb == off32.view(np.uint32), 0, 2)).reshape(-1, n).tolist() if n else []
+    if on32.view(np.uint32) != off32.view(np.uint32) and m != ('ok', sym):
+      ctx.disagreements_checked += 1
+      ctx.violation('onehot-model-mismatch', f'model {m} vs implementation {sym} on {case}', case, concrete=False)
     elif m != ('ok', ind):
       ctx.disagreements_checked += 1
       ctx.violation('onehot-model-mismatch', f'model {m} vs {ind}', case, concrete=False)
